@@ -100,11 +100,17 @@ Definition native_entry_bad (e : expr) : bool :=
 (** the clauses, evaluated on the implementation's decoded transaction *)
 Definition c02_clauses (c : case) (a : atx) : list (N * bool) :=
   let t := c_tx c in
-  let outs := filter (fun o => negb (out_optional o)) (tx_outputs t) in
+  (* an optional output is emitted exactly when it carries something: lovelace or a token *)
+  let keeps := fun (o : output) => negb (out_optional o)
+                                   || match aden (out_amount o) with
+                                      | Some d => existsb (fun kv => 0 <? kv.2) (map_to_list d)
+                                      | None => true end in
+  let outs := filter keeps (tx_outputs t) in
   let reduced := match (if c_reduce c then tx_reduce 0 t else Ok t) with Ok t' => t' | _ => t end in
-  let entry_bad := map (fun o => native_entry_bad (out_amount o)) (filter (fun o => negb (out_optional o)) (tx_outputs reduced)) in
+  let entry_bad := map (fun p => native_entry_bad (out_amount (snd p))) (filter (fun p => keeps (fst p)) (zip (tx_outputs t) (tx_outputs reduced))) in
   let dens := map (fun o => aden (out_amount o)) outs in
-  let all_plain := forallb (fun o => negb (out_optional o)) (tx_outputs t)
+  (* whether an optional output of C02's recorded classes (wrapped lovelace, dropped entry) is emitted follows the wrapped value: left out of the comparison *)
+  let all_plain := forallb (fun o => negb (out_optional o) || match aden (out_amount o) with Some d => negb (lovelace_neg d || native_bad d) | None => false end) (tx_outputs t)
                    && negb (existsb (fun d => bool_decide (ad_name d = "cardano_publish"%string)) (tx_adhoc t)) in
   let pairs := zip dens (a_outputs a) in
   [ (* known classes first: they are reported under their own ids *)
